@@ -673,7 +673,7 @@ func genBatch(prop string, g *Gen, m *Model, rng *SplitMix) []Cmd {
 		n := 2 + rng.Intn(4)
 		for i := 0; i < n; i++ {
 			c := Cmd{Op: "claim", Agent: agent()}
-			if rng.Chance(1, 4) {
+			if rng.Chance(2, 5) {
 				e := g.ref(m, isEpic, false)
 				c.Epic = &e
 			}
@@ -914,6 +914,14 @@ func runConcSample(bin, prop string, seed uint64, thorough bool) *RunReport {
 	r := NewRun(bin, sc)
 	defer r.Close()
 	r.InitStore()
+	if (prop == "C01" || prop == "C13" || prop == "C02") && rng.Chance(1, 2) {
+		// two-level shapes: epics, tasks inside them, epic-to-epic and
+		// cross-epic dependencies (readiness through the epic level)
+		for _, st := range g.twoLevelPrelude() {
+			sc.Steps = append(sc.Steps, st)
+			r.ExecStep(st)
+		}
+	}
 	nsetup := 4 + rng.Intn(10)
 	for i := 0; i < nsetup; i++ {
 		st := g.Next(r.M)
@@ -937,8 +945,10 @@ func runConcSample(bin, prop string, seed uint64, thorough bool) *RunReport {
 			r.ExecStep(st)
 		}
 	}
+	inflated := false
 	if (prop == "C01" || prop == "C02") && rng.Chance(1, 6) {
-		st := Step{Disk: &DiskOp{Kind: "inflate", N: 10 + rng.Intn(16), Pos: rng.Intn(1 << 16)}}
+		inflated = true
+		st := Step{Disk: &DiskOp{Kind: "inflate", N: 12 + rng.Intn(10), Pos: rng.Intn(1 << 16)}}
 		sc.Steps = append(sc.Steps, st)
 		r.ExecStep(st)
 	}
@@ -980,6 +990,9 @@ func runConcSample(bin, prop string, seed uint64, thorough bool) *RunReport {
 			}
 		}
 	}
+	if inflated && len(sweepers) > 1 {
+		sweepers = sweepers[:1] // long logs make every execution slow: one sweep only
+	}
 	for _, a := range sweepers {
 		// how many visible events does A have when run alone?
 		r.Restore(snap)
@@ -993,7 +1006,7 @@ func runConcSample(bin, prop string, seed uint64, thorough bool) *RunReport {
 		}
 		// two preemptions: a competitor B parked right after taking the lock
 		// while A continues from each of its points k
-		if prop != "C13" && a == sweepers[0] {
+		if prop != "C13" && a == sweepers[0] && !inflated {
 			b := -1
 			for off := 1; off < len(cmds); off++ {
 				j := (a + off) % len(cmds)
